@@ -3,7 +3,8 @@
 // Contracts for the frame writers (frame.go) and their round trip with the parsers, checked by /verif/govc.
 package http2
 
-//@ globalinv [C19:writer-sentinel-errors-set] errStreamID != nil && errDepStreamID != nil
+//@ globalinv [C19:writer-sentinel-errors-set] errStreamID != nil && errDepStreamID != nil && errPadLength != nil && errPadBytes != nil
+//@ globalinv [C19:padding-source-is-255-zero-octets] len(padZeros) == 255 && (forall k int :: 0 <= k && k < 255 ==> padZeros[k] == 0)
 //@ -- wire image of a frame header and of big-endian integers
 //@ pure func enc32(v int) seq[byte] = seq[byte]{v / 16777216 % 256, v / 65536 % 256, v / 256 % 256, v % 256}
 //@ pure func enc16(v int) seq[byte] = seq[byte]{v / 256 % 256, v % 256}
@@ -112,17 +113,52 @@ package http2
 //@ -- the block is split, and an interim 100-continue block contains nothing but its own :status field
 //@ ghost var lastWH HeadersFrameParam
 //@ ghost var whCount int
+//@ pure func prioZero(pp PriorityParam) bool = pp.StreamDep == 0 && !pp.Exclusive && pp.Weight == 0
 //@ func (*Framer).WriteHeaders :: f, p -> err
-//@   trusted
-//@   assigns unrestricted, lastWH, whCount
+//@   props C19,C08
+//@   requires f != nil && f.w != nil && !f.logWrites
+//@   assigns f.wbuf, written(f.w), lastWH, whCount
+//@   ghostset lastWH = p
+//@   ghostset whCount = whCount + 1
 //@   ensures lastWH == p && whCount == old(whCount) + 1
+//@   ensures [C19:invalid-stream-id-not-written] (p.StreamID == 0 || p.StreamID >= 2147483648) && !f.AllowIllegalWrites ==> err != nil && written(f.w) == old(written(f.w))
+//@   ensures [C19:headers-wire-image-unpadded-without-priority] err == nil && p.PadLength == 0 && prioZero(p.Priority) ==> written(f.w) == old(written(f.w)) ++ hdrBytes(len(p.BlockFragment), 1, ite(p.EndStream, 1, 0) + ite(p.EndHeaders, 4, 0), p.StreamID) ++ p.BlockFragment
+//@   ensures [C19:headers-wire-image-unpadded-with-priority] err == nil && p.PadLength == 0 && !prioZero(p.Priority) && p.Priority.StreamDep < 2147483648 ==> written(f.w) == old(written(f.w)) ++ hdrBytes(len(p.BlockFragment) + 5, 1, ite(p.EndStream, 1, 0) + ite(p.EndHeaders, 4, 0) + 32, p.StreamID) ++ enc32(p.Priority.StreamDep + ite(p.Priority.Exclusive, 2147483648, 0)) ++ seq[byte]{p.Priority.Weight} ++ p.BlockFragment
 //@ func (*Framer).WriteContinuation :: f, streamID, endHeaders, headerBlockFragment -> err
-//@   trusted
-//@   assigns unrestricted
+//@   props C19,C08
+//@   requires f != nil && f.w != nil && !f.logWrites
+//@   assigns f.wbuf, written(f.w)
+//@   ensures [C19:invalid-stream-id-not-written] (streamID == 0 || streamID >= 2147483648) && !f.AllowIllegalWrites ==> err != nil && written(f.w) == old(written(f.w))
+//@   ensures [C19:continuation-wire-image] err == nil ==> written(f.w) == old(written(f.w)) ++ hdrBytes(len(headerBlockFragment), 9, ite(endHeaders, 4, 0), streamID) ++ headerBlockFragment
+//@ -- a nil pad means "no PADDED flag"; the executor identifies nil and empty slices, so the contract speaks about
+//@ -- len(pad) (an empty non-nil pad, which would set the flag with a zero pad length, is outside what is modelled)
+//@ func (*Framer).startWriteDataPadded :: f, streamID, endStream, data, pad -> err
+//@   props C19
+//@   requires f != nil
+//@   assigns f.wbuf
+//@   ensures [C19:invalid-stream-id-not-written] (streamID == 0 || streamID >= 2147483648) && !f.AllowIllegalWrites ==> err != nil
+//@   ensures [C19:data-frame-image-unpadded] err == nil && len(pad) == 0 ==> f.wbuf == hdrBytes(0, 0, ite(endStream, 1, 0), streamID) ++ data
+//@   ensures [C19:data-frame-image-padded] err == nil && len(pad) > 0 ==> len(pad) <= 255 && f.wbuf == hdrBytes(0, 0, ite(endStream, 1, 0) + 8, streamID) ++ seq[byte]{len(pad)} ++ data ++ pad
+//@   ensures [C19:padding-octets-are-zero-when-sending] err == nil && !f.AllowIllegalWrites ==> (forall k int :: 0 <= k && k < len(pad) ==> pad[k] == 0)
+//@   loop 1 invariant -1 <= rangeindex && rangeindex < len(pad) && (forall k int :: 0 <= k && k <= rangeindex ==> pad[k] == 0)
+//@ func (*Framer).WriteDataPadded :: f, streamID, endStream, data, pad -> err
+//@   props C19
+//@   requires f != nil && f.w != nil && !f.logWrites
+//@   assigns f.wbuf, written(f.w)
+//@   ensures [C19:invalid-stream-id-not-written] (streamID == 0 || streamID >= 2147483648) && !f.AllowIllegalWrites ==> err != nil && written(f.w) == old(written(f.w))
+//@   ensures [C19:data-wire-image] err == nil && len(pad) == 0 ==> written(f.w) == old(written(f.w)) ++ hdrBytes(len(data), 0, ite(endStream, 1, 0), streamID) ++ data
+//@   ensures [C19:padded-data-wire-image] err == nil && len(pad) > 0 ==> written(f.w) == old(written(f.w)) ++ hdrBytes(1 + len(data) + len(pad), 0, ite(endStream, 1, 0) + 8, streamID) ++ seq[byte]{len(pad)} ++ data ++ pad
+//@ func (*Framer).WriteData :: f, streamID, endStream, data -> err
+//@   props C19,C08
+//@   requires f != nil && f.w != nil && !f.logWrites
+//@   assigns f.wbuf, written(f.w)
+//@   ensures [C19:invalid-stream-id-not-written] (streamID == 0 || streamID >= 2147483648) && !f.AllowIllegalWrites ==> err != nil && written(f.w) == old(written(f.w))
+//@   ensures [C19:data-wire-image] err == nil ==> written(f.w) == old(written(f.w)) ++ hdrBytes(len(data), 0, ite(endStream, 1, 0), streamID) ++ data
+//@ -- the connection's framer has its writer; write logging (a debug aid) is off
 //@ func writeContext.Framer :: ctx -> fr
 //@   trusted
 //@   pure
-//@   ensures fr != nil
+//@   ensures fr != nil && fr.w != nil && !fr.logWrites
 //@ -- the encoder handed out with a buffer writes into that buffer
 //@ ghost var lastEncoded seq[byte]
 //@ func writeContext.HeaderEncoder :: ctx -> enc, buf
